@@ -154,6 +154,8 @@ def generate(rng, seed, run, tier, focus='C11', xmode=False):
             suf = natural
             if rng.random() < 0.3:
                 suf = rng.choice([suf.upper(), suf.title(), suf[:2] + suf[2:].upper()])
+            if rng.random() < 0.12:
+                suf = rng.choice(['.csv', '.cxt', '.txt', '.py', '.json']) + suf    # only the last extension counts
         elif rng.random() < 0.5:
             suf = '.x'
         else:
